@@ -1,5 +1,5 @@
 (* c18 driver.  stdin: one case per line, five '|'-separated fields
-     src cps | tokens: s e kind meta ... | chars: c islower n l1..ln ... | canon: key > - ; key > = cps ; ... | meta: key > m ; ...
+     src cps | tokens: s e kind meta ... | chars: c islower n l1..ln m u1..um ... (to_lowercase, to_uppercase) | canon: key > - ; key > = cps ; ... | meta: key > m ; ...
    meta code: 0 = None, otherwise 1 + 2*proper + 4*preposition + 8*determiner.
    stdout: "P" (the model panics), "O cps" (the title-cased hull), "?" (a fact the model asked for was not dumped). *)
 let meta_of_int (m : int) : wmeta option =
@@ -13,7 +13,11 @@ let rec take n l = if n = 0 then [] else match l with [] -> [] | h :: t -> h :: 
 let rec drop n l = if n = 0 then l else match l with [] -> [] | _ :: t -> drop (n - 1) t
 let rec chars_of = function
   | c :: isl :: n :: t ->
-      (n_of_int c, (isl = 1, List.map n_of_int (take n t))) :: chars_of (drop n t)
+      let l = take n t in
+      (match drop n t with
+       | m :: t2 ->
+           (n_of_int c, (isl = 1, (List.map n_of_int l, List.map n_of_int (take m t2)))) :: chars_of (drop m t2)
+       | [] -> [])
   | _ -> []
 let split_on c s = List.map String.trim (String.split_on_char c s)
 let entries (s : string) : (string * string) list =
